@@ -84,12 +84,18 @@ def main():
                         viol.append(f'{kname}/{label}: alive={w.is_alive()} has_error={w.has_error!r} result={w.result!r} error={w.error!r}')
         if not want or want.startswith('Le'):
             exp = {WorkerType.THREAD: 'ThreadWorker', WorkerType.PROCESS: 'ProcessWorker', WorkerType.REMOTE: 'RemoteWorker'}
-            for base, prefix in ((Worker, ''), (PersistentWorker, 'Persistent')):
+            # both flavours of the factory, in both orders, in this one process: what one of them leaves behind must not change what the other builds
+            for base, prefix in ((Worker, ''), (PersistentWorker, 'Persistent'), (Worker, ''), (PersistentWorker, 'Persistent')):
                 for wt, cn in exp.items():
                     kw = {'host': server.addr} if wt is WorkerType.REMOTE else {}
                     w = base.create(wt, T.ret, args=(3,), **kw)
                     if type(w).__name__ != prefix + cn:
-                        viol.append(f'{base.__name__}.create({wt.name}) built a {type(w).__name__}')
+                        viol.append(f'{base.__name__}.create({wt.name}) built a {type(w).__name__} (after the other flavour of the factory had been used in this process)')
+                        try:
+                            w.terminate(timeout=1)
+                        except Exception:     # noqa
+                            pass
+                        continue
                     if prefix:
                         w.enqueue()
                         r = w.next_result()
